@@ -32,7 +32,11 @@ def main(argv):
         audit = common.lean_audit(prop)
         tie = gen_tie.translate_and_build(prop)     # definitions regenerated from the source vs the model
         tie_c = gen_tie_c.translate_and_build(prop)  # C kernels: clang AST -> Lean vs KernelMem / Pcg (C17, C12)
-        tie = {k: (tie[k] and tie_c[k]) if k == "ok" else tie[k] + tie_c[k] for k in tie}
+        def _merge(a, b):
+            if isinstance(a, bool): return a and (True if b is None else b)
+            if isinstance(a, dict): return dict(a, **(b or {}))
+            return a + (b if b is not None else type(a)())
+        tie = {k: _merge(tie[k], tie_c.get(k)) for k in tie}
         audit["ok"] = audit["ok"] and tie["ok"]
         audit["problems"] += tie["problems"]
         audit["theorems"] += tie["theorems"]
@@ -54,7 +58,19 @@ def main(argv):
                     if f.endswith(".json"):
                         mod.replay(ctx, json.load(open(os.path.join(cdir, f))))
                         ctx.count("corpus")
-            mod.check(ctx)
+            try:
+                mod.check(ctx)
+            except (Infra, MemoryError):
+                raise
+            except Exception as e:
+                # On the unchanged tree the harness never raises (swept over many seeds).  An exception while it digests what
+                # the implementation returned therefore means the implementation now returns something the model / oracle code
+                # cannot digest: that is a broken correspondence, not an infrastructure failure.  Violations found before the
+                # exception are reported as usual; otherwise the run ends `no-failing-input-found` with the traceback as replay.
+                tb = traceback.format_exc()
+                print(tb)
+                ctx.diff("harness-exception", {"exception": "%s: %s" % (type(e).__name__, str(e)[:500])},
+                         tb[-1500:], "the harness completes without exception on the unchanged tree")
     except Infra as e:
         print("INFRA:", e); return 2
     except Exception:
